@@ -139,6 +139,13 @@ def dispatch_trace(m, path, fr, env, outcome, value, exc):
             chk = [e for e in seg if e[0] == "call" and e[1] == "toasty.par_util.ensure_workers_ok"]
             ok = len(chk) == 1 and _same(chk[0][2].get("workers"), env.lookup("workers"))
             path.oblige(m.oblname("dispatch/timeout_checks_that_no_worker_has_failed"), z3.BoolVal(bool(ok)), kind="trace", assume_after=False)
+    # the shutdown flag may only be raised once the apex has been reported (the walk worker's exit rule relies on it:
+    # "flag set and nothing received" must mean that no tile is outstanding)
+    brk = [i for i, e in enumerate(ev) if e[0] == "loop_break" and e[1] == 3]
+    for i, e in enumerate(ev):
+        if e[0] == "ev_set":
+            path.oblige(m.oblname("dispatch/shutdown_flag_raised_only_after_the_apex_was_reported"),
+                        z3.BoolVal(bool(brk) and i > brk[0]), kind="trace", assume_after=False)
     # shutdown order after the loop
     if outcome == "return" and any(e[0] == "loop_break" and e[1] == 3 for e in ev):
         after = ev[max(i for i, e in enumerate(ev) if e[0] == "loop_break" and e[1] == 3):]
